@@ -212,3 +212,48 @@ Example C18_crc_multi_nonvacuous :
   Forall (fun s : list bool => s <> []) [[true]; [false; true]] /\
   crc_run_multi (B 4 3) (B 4 15) [[true]; [true; false]] = Some (B 4 11).
 Proof. split; [repeat constructor; discriminate|vm_compute; reflexivity]. Qed.
+
+(** the register after feeding [msg] (first bit = highest coefficient) from [init] is the remainder of
+    init * x^len(msg) + msg * x^n  divided by the generator x^n + poly(x), computed by schoolbook long division *)
+Theorem C18_crc_is_poly_remainder : forall poly init msg,
+  length poly = length init -> init <> [] ->
+  fold_left (crc_step poly) msg init = crc_spec poly init msg.
+Proof. exact crc_is_poly_remainder. Qed.
+Print Assumptions C18_crc_is_poly_remainder.
+
+(** non-vacuity: CRC-8 (poly 0x07, init 0) of the ASCII string "123456789" is 0xF4, by the division and by the register *)
+Example C18_crc_check_value :
+  let msg := [false;false;true;true;false;false;false;true;false;false;true;true;false;false;true;false;false;false;true;true;false;false;true;true;false;false;true;true;false;true;false;false;false;false;true;true;false;true;false;true;false;false;true;true;false;true;true;false;false;false;true;true;false;true;true;true;false;false;true;true;true;false;false;false;false;false;true;true;true;false;false;true] in
+  length (B 8 7) = length (B 8 0) /\ B 8 0 <> [] /\
+  crc_spec (B 8 7) (B 8 0) msg = B 8 244 /\ fold_left (crc_step (B 8 7)) msg (B 8 0) = B 8 244.
+Proof. vm_compute. repeat split; try reflexivity. discriminate. Qed.
+
+(** the index returned by min_element (hence min_index) is the first position whose key is minimal *)
+Theorem C18_first_extremum_wins : forall (E : Type) (key : E -> Z) (xs : list E) i e,
+  min_element_m Z.ltb key xs = Some (i, e) ->
+  nth_error xs i = Some e /\
+  (forall j y, nth_error xs j = Some y -> (key e <= key y)%Z) /\
+  (forall j y, (j < i)%nat -> nth_error xs j = Some y -> (key e < key y)%Z).
+Proof. intros E key xs i e; apply first_extremum_wins. Qed.
+Print Assumptions C18_first_extremum_wins.
+
+Example C18_first_extremum_wins_nonvacuous :
+  min_element_m Z.ltb (fun x : Z * Z => snd x) [(0, 5); (1, 2); (2, 7); (3, 2)]%Z = Some (1%nat, (1, 2)%Z).
+Proof. vm_compute; reflexivity. Qed.
+
+(** batched: the k-th batch is the slice of bits [k*n, min((k+1)*n, width)) *)
+Theorem C18_batched_spec : forall input n partial,
+  (1 <= n)%nat -> ((length input mod n = 0)%nat \/ partial = true) ->
+  batched_m input n partial = Some (batched_spec input n).
+Proof. exact batched_m_spec. Qed.
+Print Assumptions C18_batched_spec.
+
+Example C18_batched_nonvacuous :
+  (1 <= 3)%nat /\ batched_m (B 7 83) 3 true = Some [B 3 3; B 3 2; B 1 1].
+Proof. split; [lia|vm_compute; reflexivity]. Qed.
+
+Theorem C18_select_spec : forall (A : Type) arg (branches : list (Z * A)) d,
+  select_m arg branches d =
+  match find (fun kv : Z * A => (fst kv =? arg)%Z) branches with Some kv => snd kv | None => d end.
+Proof. intros; apply select_m_spec. Qed.
+Print Assumptions C18_select_spec.
